@@ -45,14 +45,18 @@ ASSUMPTIONS = [
     "reference Sem: field navigation over the recipe's link list, set operators on the operand results from the same "
     "start set, subtype filter with the reflexive-transitive subtype relation, variable = nearest declaration up the "
     "chain, transitive only bounded (interval arithmetic propagates the bounds through later operators)",
-    "termination guard: recursion limit = current depth + 400, at most 3000 calls (60000 per graph) of "
-    "Model.get_associated_assets_by_field_name per evaluation (counted by a delegating wrapper on the model "
-    "instance), 30 s wall alarm; exceeding any of them is reported under C01.terminates",
+    "termination guard: recursion limit = current depth + 150 frames, at most 200 / 600 / 2000 / 10000 calls (models "
+    "of 1 / 2 / 3 / 4 assets) of Model.get_associated_assets_by_field_name per evaluation or generation (counted by "
+    "a delegating wrapper on the model instance), 30 s wall alarm; exceeding any of them is reported under "
+    "C01.terminates",
     "generated languages are well-typed by a typer stricter than the library's (least common ancestor for set "
     "operators, source type <= target type for transitive); LanguageGraph() accepting them is relied on",
 ]
 BUDGET_S = {"quick": 100, "thorough": 1500}
 CHUNK = 150
+# calls of Model.get_associated_assets_by_field_name allowed per evaluation / generation, by number of assets
+# (largest count observed on terminating evaluations of the pinned tree: 6 / 76 / 36 for 1 / 2 / 3 assets)
+NAV_BUDGET = {1: 200, 2: 600, 3: 2000, 4: 10000}
 
 CURATED = {
     "S1": [("A", e) for e in (
@@ -145,9 +149,9 @@ def graph_lang(sname, L, batch):
 
 
 # fraction of the (model x expression batch) product that is run per structure in the quick tier
-QUICK_FRACTION = {"S3": 0.30, "S1": 1.0, "S2": 0.05, "S4": 1.0}
+QUICK_FRACTION = {"S3": 0.25, "S1": 1.0, "S2": 0.04, "S4": 1.0}
 SINGLES_FRACTION = {"S3": 1.0, "S1": 1.0, "S2": 0.15, "S4": 1.0}
-T_FRACTION = {"S3": 0.05, "S1": 0.25, "S2": 0.12, "S4": 0.5}      # further factor for the transitive batches
+T_FRACTION = {"S3": 0.03, "S1": 0.15, "S2": 0.06, "S4": 0.3}      # further factor for the transitive batches
 
 
 def _is_tiny(L, links):
@@ -170,7 +174,7 @@ def cases(tier, seed):
             big = list(G.models_random(L, 3, 300, rnd))
         else:
             big = list(G.models_random(L, 3, 3000, rnd)) + list(G.models_random(L, 4, 1500, rnd))
-        nb4 = 10000
+
         fits = lambda T, types: any(L.is_sub(t, T) for t in types)
         # (1) one expression per case on the tiny models (smallest recipes)
         p1 = SINGLES_FRACTION[sname] if quick else 1.0
@@ -179,6 +183,7 @@ def cases(tier, seed):
             mrec = G.model_recipe(types, links)
             for (T, e) in small:
                 if not fits(T, types) or (p1 < 1.0 and rnd.random() >= p1): continue
+                if quick and G.trans_fields(L, e) and rnd.random() < 0.5: continue
                 yield {"k": "eval", "lang": eval_lang, "src": T, "exprs": [full(e)], "model": mrec}
                 yield {"k": "graph", "lang": graph_lang(sname, L, [(T, e)]), "model": mrec}
         # (2) batches of expressions x (every <=2-asset model in every decomposition, random larger models);
@@ -240,7 +245,7 @@ def _clause_of_blame(b):
 def run_case(recipe):
     L = G.Lang(recipe["lang"])
     mv = G.ModelView(L, recipe["model"])
-    real = G.Real(L, recipe["model"], nav_budget=recipe.get("nb", 2000))
+    real = G.Real(L, recipe["model"], nav_budget=NAV_BUDGET[min(4, max(1, len(recipe["model"]["assets"])))])
     r = CaseResult()
     seen = set()
     if real.build_error is not None:
@@ -272,7 +277,7 @@ def _run_eval(recipe, L, mv, real, r, seen):
             if any(d <= X for d in dead): continue
             lo, hi = mv.sem(e, X)
             if hi: nontrivial = True
-            st, got, name, _n = real.eval(e, X)
+            st, got, name, _n, _raw = real.eval(e, X)
             ok = st == "ok" and lo <= got <= hi and name == G.step_name(e)
             if ok:
                 r.check(top, True, FN_EVAL)
@@ -283,7 +288,7 @@ def _run_eval(recipe, L, mv, real, r, seen):
                 b = G.nonterm_blame(real, mv, e, X, st, got)
                 if b is not None and b["kind"] == "term": dead_fields |= tf
             else:
-                b = G.blame(real, mv, e, X)
+                b = G.blame(real, mv, e, sorted(X))
             if b is None:
                 b = dict(op=inner[0], kind="term" if st not in ("ok", "exc") else "exc" if st == "exc" else "value",
                          sig="unlocalised:" + G.OPNAME[inner[0]] + ":" + (st if st != "ok" else "value"),
@@ -311,10 +316,14 @@ def _run_graph(recipe, L, mv, real, r, seen):
     if st != "ok":
         b = None
         if st != "exc":
-            for (x, s) in expected:
-                for e in steps_of[mv.types[x]][s]["exprs"] or []:
-                    if G.cyclic_trans(mv, e, [x]):
-                        b = G.nonterm_blame(real, mv, e, [x], st, g); break
+            for reachable_only in (True, False):
+                for (x, s) in expected:
+                    for e in steps_of[mv.types[x]][s]["exprs"] or []:
+                        if G.cyclic_trans(mv, e, [x]) if reachable_only else G.trans_fields(L, e):
+                            b = G.nonterm_blame(real, mv, e, [x], st, g)
+                            if b and b["kind"] != "term": b = None
+                        if b: break
+                    if b: break
                 if b: break
         if b is None:
             b = culprit(expected)
